@@ -23,9 +23,12 @@ var c06Shapes = map[string]string{
 	"strkeys": `["k" => 1, "m" => 2]`,
 	"nested":  `[1, [2, 3], [4, [5]]]`,
 	"mixed":   `[1, [3], "k" => 2]`,
+	// nested arrays that are empty when the copy is made
+	"emptynested": `[1, [], "k" => []]`,
 }
 
 const c06Prelude = `class Holder { public $p = []; public function items() { return $this->p; } }
+class Kept { public $p = []; public function __construct($q) { $this->p = $q; } }
 function ident($x) { return $x; }
 `
 
@@ -48,6 +51,10 @@ func c06Mut(m, x, shape string) string {
 		return fmt.Sprintf("%s[1][0] = 99;", x)
 	case "nestedappend":
 		return fmt.Sprintf("%s[1][] = 99;", x)
+	case "nestedkey":
+		return fmt.Sprintf("%s[\"k\"][\"z\"] = 99;", x)
+	case "nestedkeyappend":
+		return fmt.Sprintf("%s[\"k\"][] = 99;", x)
 	case "unset":
 		return fmt.Sprintf("unset(%s[%s]);", x, key0)
 	case "sort":
@@ -68,6 +75,15 @@ func c06Mut(m, x, shape string) string {
 
 type c06Step struct{ mut, side string }
 
+// c06InCallee: routes whose copy is a parameter, only observable inside the callee.
+func c06InCallee(route string) bool {
+	switch route {
+	case "param", "refparam", "variadic", "spread", "methodparam":
+		return true
+	}
+	return false
+}
+
 // c06Script renders one scenario; it prints lines "k|A|json" / "k|B|json" (k = number of mutations done).
 func c06Script(shape, route string, steps []c06Step) string {
 	lit := c06Shapes[shape]
@@ -81,19 +97,33 @@ func c06Script(shape, route string, steps []c06Step) string {
 			fmt.Fprintf(&sb, "echo \"%d|B|\", json_encode(%s), \"\\n\";\n", k, b)
 		}
 	}
-	if route == "param" || route == "refparam" {
-		amp := ""
-		if route == "refparam" {
-			amp = "&"
+	if c06InCallee(route) {
+		// the copy lives in a callee: parameter declaration, the lvalue naming the copy, and the call
+		decl, lv, call := "$p", "$p", "callee($a);"
+		switch route {
+		case "refparam":
+			decl = "&$p"
+		case "variadic":
+			decl, lv = "...$ps", "$ps[0]"
+		case "spread":
+			decl, lv, call = "...$ps", "$ps[1]", "$args = [0, $a];\ncallee(...$args);"
+		case "methodparam":
+			call = "$w = new Worker();\n$w->callee($a);"
 		}
-		fmt.Fprintf(&sb, "function callee(%s$p) {\n  echo \"0|B|\", json_encode($p), \"\\n\";\n", amp)
+		if route == "methodparam" {
+			sb.WriteString("class Worker {\n public ")
+		}
+		fmt.Fprintf(&sb, "function callee(%s) {\n  echo \"0|B|\", json_encode(%s), \"\\n\";\n", decl, lv)
 		for k, st := range steps {
-			fmt.Fprintf(&sb, "  %s\n  echo \"%d|B|\", json_encode($p), \"\\n\";\n", c06Mut(st.mut, "$p", shape), k+1)
+			fmt.Fprintf(&sb, "  %s\n  echo \"%d|B|\", json_encode(%s), \"\\n\";\n", c06Mut(st.mut, lv, shape), k+1, lv)
 		}
 		sb.WriteString("}\n")
+		if route == "methodparam" {
+			sb.WriteString("}\n")
+		}
 		fmt.Fprintf(&sb, "$a = %s;\n", lit)
 		obs(0, "$a", "")
-		sb.WriteString("callee($a);\n")
+		sb.WriteString(call + "\n")
 		obs(len(steps), "$a", "")
 		return sb.String()
 	}
@@ -120,6 +150,12 @@ func c06Script(shape, route string, steps []c06Step) string {
 	case "elemload":
 		fmt.Fprintf(&sb, "$outer = [0, %s];\n$b = $outer[1];\n", lit)
 		a, b = "$outer[1]", "$b"
+	case "arraypush":
+		fmt.Fprintf(&sb, "$a = %s;\n$outer = [];\narray_push($outer, $a);\n", lit)
+		a, b = "$a", "$outer[0]"
+	case "ctorparam":
+		fmt.Fprintf(&sb, "$a = %s;\n$h = new Kept($a);\n", lit)
+		a, b = "$a", "$h->p"
 	case "clone":
 		fmt.Fprintf(&sb, "$h = new Holder();\n$h->p = %s;\n$h2 = clone $h;\n", lit)
 		a, b = "$h->p", "$h2->p"
@@ -148,7 +184,7 @@ func c06Script(shape, route string, steps []c06Step) string {
 func C06(c *Ctx) *kf.Report {
 	rep := &kf.Report{Property: "C06", Level: "model_checking", Coverage: map[string]any{}}
 	rep.Assumptions = []string{
-		"shapes: list [3,1,2], string-keyed [k=>1,m=>2], nested [1,[2,3],[4,[5]]], mixed [1,[3],k=>2]; contents are observed with json_encode before and after every mutation",
+		"shapes: list [3,1,2], string-keyed [k=>1,m=>2], nested [1,[2,3],[4,[5]]], mixed [1,[3],k=>2], emptynested [1,[],k=>[]]; contents are observed with json_encode before and after every mutation",
 		"a scenario whose mutation does not change the mutated name itself is skipped (the dialect may not support that statement on that lvalue) and counted as ineffective",
 		"closure capture is excluded (origami closures share the defining frame)",
 	}
@@ -250,7 +286,7 @@ func C06(c *Ctx) *kf.Report {
 			rep.Add(kf.Mismatch{ID: fmt.Sprintf("C06/route=%s/mut=%s/side=%s/shape=%s/kind=crash", route, steps[0].mut, steps[0].side, st.Shape), Expected: "no internal crash", Observed: r.Panic, ObsKey: "crash", Input: src})
 			continue
 		}
-		inParam := route == "param" || route == "refparam"
+		inParam := c06InCallee(route)
 		for k, sp := range steps {
 			x, y := "A", "B"
 			if sp.side == "copy" {
@@ -312,6 +348,16 @@ func C06(c *Ctx) *kf.Report {
 	rep.Coverage["evaluations"] = mutsChecked
 	rep.Coverage["ineffective_scenarios"] = ineffective
 	rep.Coverage["distinct_nontrivial"] = len(nontrivial)
+	perRoute := map[string]int{}
+	for k := range nontrivial {
+		perRoute[strings.SplitN(k, "/", 2)[0]]++
+	}
+	rep.Coverage["effective_mutation_kinds_per_route"] = perRoute
+	for _, r := range []string{"assign", "param", "return", "getter", "propstore", "propload", "elemstore", "elemload", "clone", "variadic", "spread", "arraypush", "ctorparam", "methodparam", "ref", "refparam", "handle"} {
+		if perRoute[r] == 0 {
+			rep.Infraf("route %s: no effective mutation observed (vacuous)", r)
+		}
+	}
 	rep.Coverage["exhaustive"] = true
 	rep.Coverage["rule"] = "every path (shape, route, 1..2 mutations on either side) of the Heap graph rendered as a script that snapshots both names before and after every mutation; the unwritten name must keep its snapshot on value routes and follow the written one on sharing routes; non-trivial = distinct effective (route, mutation, side, shape)"
 	if len(samples) == 0 {
